@@ -79,7 +79,7 @@ def lemma(x, k):
     assert le_bytes(b, smul(k, c + 8), 8) == x._blooms[k]._els_added
     assert le_bytes(b, smul(k, c + 8), 8) == y._blooms[k]._els_added
     assert y._blooms[k]._els_added == x._blooms[k]._els_added
-    assert all(y._blooms[k]._bloom[j] == b[smul(k, c + 8) + 8 + j] for j in range(0, c))
+    assert all(y._blooms[k]._bloom[j] == b[smul(k, eb_cells(y) + 8) + 8 + j] for j in range(0, eb_cells(y)))   # (the ensures instance)
     assert all(x._blooms[k]._bloom[j] == b[smul(k, c + 8) + 8 + j] for j in range(0, c))
     assert all(y._blooms[k]._bloom[j] == x._blooms[k]._bloom[j] for j in range(0, c))
     assert len(y._blooms[k]._bloom) == c and len(x._blooms[k]._bloom) == c
